@@ -313,6 +313,21 @@ fn parse_txt_payload(payload: &str) -> Result<Vec<ScionIpAddr>, TxtParseError> {
     Ok(addresses)
 }
 
+/// Verification hook: exposes the private TXT payload parser (the text after `scion=v1;`).
+#[cfg(anapaya_scion_sdk_verif)]
+pub fn verif_parse_txt_payload(payload: &str) -> Result<Vec<ScionIpAddr>, String> {
+    parse_txt_payload(payload).map_err(|err| err.to_string())
+}
+
+/// Verification hook: exposes the record-level TXT interpretation used by `resolve`.
+#[cfg(anapaya_scion_sdk_verif)]
+pub fn verif_resolve_txt_records(
+    domain: &str,
+    records: Vec<String>,
+) -> Result<Vec<ScionIpAddr>, ResolveError> {
+    resolve_txt_records_with_invalid(domain, records, Vec::new())
+}
+
 fn txt_record_to_string(txt: &TXT) -> Result<String, InvalidEntry> {
     let bytes: Vec<u8> = txt
         .txt_data()
